@@ -25,6 +25,7 @@ import (
 	"path/filepath"
 	"sort"
 	"strconv"
+	"regexp"
 	"strings"
 	"time"
 	. "verifharness/vhlib"
@@ -35,10 +36,15 @@ import (
 )
 
 func main() {
-	// the harness binary doubles as the simulated Linux host (SIMULATE_ROUTER=<this binary> -sim STATE)
-	if len(os.Args) >= 3 && os.Args[1] == "-sim" {
-		runSim(os.Args[2])
+	// the harness binary doubles as the simulated Linux host: pkg/linux runs `ssh -l USER IP` and
+	// `scp -q SRC USER@IP:DST`; a directory at the head of PATH holds `ssh` and `scp` as links to this binary.
+	// SIMULATE_ROUTER is NOT set, so the real putScp (exec of scp) runs and the host's files are observable.
+	switch filepath.Base(os.Args[0]) {
+	case "ssh":
+		runSim(os.Getenv("VH_C05_SIM"), os.Args[1:])
 		return
+	case "scp":
+		os.Exit(runScp(os.Getenv("VH_C05_SIM"), os.Args[1:]))
 	}
 	Main(map[string]PropFunc{"C05": runC05, "C10": runC10, "C14": runC14})
 }
@@ -68,26 +74,90 @@ func predName(p string) string {
 
 // ---------------------------------------------------------------- simulated Linux host (device path)
 
+const (
+	simUser  = "admin"
+	simIP    = "10.1.13.33"
+	pfFile   = "/etc/network/packet-filter"
+	rtFile   = "/etc/network/routing"
+	restorer = "/sbin/iptables-restore"
+	oldPF    = "#!/sbin/iptables-restore\n# rules of the last boot (OLD)\n"
+	oldRT    = "#!/bin/sh\n# routes of the last boot (OLD)\n"
+)
+
 type simState struct {
 	Routes string `json:"routes"`  // output of `ip route show`
 	Ipt    string `json:"ipt"`     // output of `iptables-save`
 	FailAt int    `json:"fail_at"` // the session dies when the `ip route add|del` command with this index arrives (-1: never)
 	Log    string `json:"log"`     // accepted changing commands (`ip route …`, chmod, the restore file, mv), one per line
-	// the session dies when this arrives: which | chmod | exec | mv | echo-after-chmod | echo-after-exec | echo-after-mv
+	// the session dies when this arrives: which | chmod | exec | mv | echo-after-chmod | echo-after-exec | echo-after-mv;
+	// scp-iptables | scp-routing: that copy fails (connection lost), the file is not written
 	DieAt string `json:"die_at"`
+	Fs    string `json:"fs"`     // root directory of the host's file system
+	Loads string `json:"loads"`  // directory: one file per rule file the host executed (what the kernel was given)
+}
+
+func hostPath(st *simState, p string) (string, bool) {
+	if !strings.HasPrefix(p, "/") || strings.Contains(p, "..") || strings.ContainsAny(p, " \t'\"") {
+		return "", false
+	}
+	return filepath.Join(st.Fs, filepath.Clean(p)), true
+}
+
+// runScp: `scp -q SRC USER@IP:DST` copies into the host's file system (mode of a new file: 0644; an existing file keeps its mode).
+func runScp(stateFile string, args []string) int {
+	var st simState
+	data, _ := os.ReadFile(stateFile)
+	json.Unmarshal(data, &st)
+	remote := simUser + "@" + simIP + ":"
+	if len(args) != 3 || args[0] != "-q" || !strings.HasPrefix(args[2], remote) {
+		fmt.Fprintln(os.Stderr, "scp: unexpected arguments", args)
+		return 1
+	}
+	dst := strings.TrimPrefix(args[2], remote)
+	if (st.DieAt == "scp-iptables" && strings.HasPrefix(dst, pfFile)) || (st.DieAt == "scp-routing" && dst == rtFile) {
+		fmt.Fprintln(os.Stderr, "lost connection")
+		return 1
+	}
+	hp, ok := hostPath(&st, dst)
+	content, err := os.ReadFile(args[1])
+	if !ok || err != nil {
+		fmt.Fprintln(os.Stderr, "scp: cannot copy", args[1], dst)
+		return 1
+	}
+	mode := os.FileMode(0644)
+	if fi, err := os.Stat(hp); err == nil {
+		mode = fi.Mode().Perm()
+	}
+	if _, err := os.Stat(filepath.Dir(hp)); err != nil {
+		fmt.Fprintln(os.Stderr, "scp: "+dst+": No such file or directory")
+		return 1
+	}
+	os.Remove(hp)
+	if os.WriteFile(hp, content, mode) != nil {
+		return 1
+	}
+	os.Chmod(hp, mode)
+	return 0
 }
 
 // runSim speaks the dialogue pkg/linux expects over stdin/stdout (no pty: the host echoes itself).
-func runSim(stateFile string) {
+// A small strict shell: unknown commands answer `command not found`; chmod / exec / mv act on the host's files.
+func runSim(stateFile string, args []string) {
 	var st simState
 	data, _ := os.ReadFile(stateFile)
 	json.Unmarshal(data, &st)
 	in := bufio.NewReader(os.Stdin)
 	out := bufio.NewWriter(os.Stdout)
+	if len(args) != 3 || args[0] != "-l" || args[1] != simUser || args[2] != simIP {
+		fmt.Fprintln(os.Stderr, "ssh: unexpected arguments", args)
+		os.Exit(255)
+	}
 	out.WriteString("Linux router 5.10.0\r\nroot@router:~# ")
 	out.Flush()
 	nroute := 0
+	nload := 0
 	last := ""
+	status := 0
 	logCmd := func(l string) {
 		if st.Log != "" {
 			f, _ := os.OpenFile(st.Log, os.O_APPEND|os.O_CREATE|os.O_WRONLY, 0644)
@@ -110,28 +180,30 @@ func runSim(stateFile string) {
 		}
 		resp := ""
 		kind := ""
+		words := strings.Fields(line)
 		switch {
 		case line == "which iptables-restore":
 			kind = "which"
-		case strings.HasPrefix(line, "chmod "):
+		case len(words) > 0 && words[0] == "chmod":
 			kind = "chmod"
-		case line == "/etc/network/packet-filter.new":
+		case len(words) == 1 && strings.HasPrefix(line, "/"):
 			kind = "exec"
-		case strings.HasPrefix(line, "mv -f "):
+		case len(words) > 0 && words[0] == "mv":
 			kind = "mv"
 		}
 		if st.DieAt != "" && (st.DieAt == kind || (line == "echo $?" && st.DieAt == "echo-after-"+last)) {
 			return // the session is interrupted: this command is not executed
-		}
-		if kind == "chmod" || kind == "exec" || kind == "mv" {
-			logCmd(line)
 		}
 		if kind != "" {
 			last = kind
 		} else if line != "echo $?" {
 			last = ""
 		}
+		newStatus := 0
 		switch {
+		case line == "echo $?":
+			resp = strconv.Itoa(status) + "\n"
+		case strings.HasPrefix(line, "PS1="):
 		case line == "uname -r":
 			resp = "5.10.0-verif\n"
 		case line == "uname -m":
@@ -141,26 +213,95 @@ func runSim(stateFile string) {
 		case strings.HasPrefix(line, "grep ") && strings.HasSuffix(line, "/etc/issue"):
 			resp = "--- managed by NetSPoC ---\n"
 		case line == "which iptables-restore":
-			resp = "/sbin/iptables-restore\n"
+			resp = restorer + "\n"
 		case line == "iptables-save":
 			resp = st.Ipt
 		case line == "ip route show":
 			resp = st.Routes
-		case line == "echo $?":
-			resp = "0\n"
 		case strings.HasPrefix(line, "ip route add ") || strings.HasPrefix(line, "ip route del "):
 			if nroute == st.FailAt {
 				// the session is interrupted here: this command and everything behind it (also the second
 				// half of a packet) is not executed
 				return
-			} else {
-				logCmd(line)
 			}
+			logCmd(line)
 			nroute++
+		case kind == "chmod":
+			hp, ok := "", false
+			if len(words) == 3 {
+				hp, ok = hostPath(&st, words[2])
+			}
+			switch {
+			case len(words) != 3 || !ok:
+				resp, newStatus = "chmod: missing operand\n", 1
+			case words[1] != "a+x":
+				resp, newStatus = "chmod: mode '"+words[1]+"' is not the one the host expects\n", 1
+			default:
+				if fi, err := os.Stat(hp); err != nil {
+					resp, newStatus = "chmod: cannot access '"+words[2]+"': No such file or directory\n", 1
+				} else {
+					os.Chmod(hp, fi.Mode().Perm()|0111)
+					logCmd(line)
+				}
+			}
+		case kind == "exec":
+			hp, ok := hostPath(&st, line)
+			fi, err := os.Stat(hp)
+			switch {
+			case !ok || err != nil:
+				resp, newStatus = "-bash: "+line+": No such file or directory\n", 127
+			case fi.Mode().Perm()&0111 == 0:
+				resp, newStatus = "-bash: "+line+": Permission denied\n", 126
+			default:
+				content, _ := os.ReadFile(hp)
+				first, _, _ := strings.Cut(string(content), "\n")
+				if first != "#!"+restorer {
+					resp, newStatus = "-bash: "+line+": "+strings.TrimPrefix(first, "#!")+": bad interpreter: No such file or directory\n", 126
+				} else {
+					// iptables-restore reads the file: the kernel's rule set is now what the file says
+					nload++
+					os.WriteFile(filepath.Join(st.Loads, fmt.Sprintf("%03d", nload)), content, 0644)
+					logCmd(line)
+				}
+			}
+		case kind == "mv":
+			var src, dst string
+			ok1, ok2 := false, false
+			if len(words) == 4 && words[1] == "-f" {
+				src, ok1 = hostPath(&st, words[2])
+				dst, ok2 = hostPath(&st, words[3])
+			}
+			switch {
+			case !ok1 || !ok2:
+				resp, newStatus = "mv: unexpected operands\n", 1
+			default:
+				if _, err := os.Stat(src); err != nil {
+					resp, newStatus = "mv: cannot stat '"+words[2]+"': No such file or directory\n", 1
+				} else if os.Rename(src, dst) != nil {
+					resp, newStatus = "mv: cannot move '"+words[2]+"' to '"+words[3]+"': No such file or directory\n", 1
+				} else {
+					logCmd(line)
+				}
+			}
+		default:
+			w := line
+			if len(words) > 0 {
+				w = words[0]
+			}
+			resp, newStatus = "-bash: "+w+": command not found\n", 127
 		}
+		status = newStatus
 		out.WriteString(line + "\r\n" + strings.ReplaceAll(resp, "\n", "\r\n") + "router#")
 		out.Flush()
 	}
+}
+
+// hostOut: the host's files after a run.
+type hostOut struct {
+	PF, RT  string   // /etc/network/packet-filter, /etc/network/routing
+	NewLeft bool     // /etc/network/packet-filter.new still exists
+	Others  []string // any other file under /etc/network
+	Loaded  []string // contents of the rule files the host executed during this run
 }
 
 // deviceRun runs the real `drc [-C] -q -L LOGDIR CODE/router` against the simulated host.
@@ -169,27 +310,50 @@ func (r *runner) deviceRun(compare bool, routesOut, iptOut, spoc string, failAt 
 	return r.deviceRun2(compare, routesOut, iptOut, spoc, failAt, "")
 }
 
+// newHostFs creates the file system of a host that was booted with OLD start-up files.
+func (r *runner) newHostFs() string {
+	r.n++
+	root := filepath.Join(r.dir, fmt.Sprintf("fs%d", r.n))
+	os.MkdirAll(filepath.Join(root, "etc/network"), 0755)
+	os.WriteFile(filepath.Join(root, pfFile), []byte(oldPF), 0755)
+	os.WriteFile(filepath.Join(root, rtFile), []byte(oldRT), 0755)
+	return root
+}
+
 func (r *runner) deviceRun2(compare bool, routesOut, iptOut, spoc string, failAt int, dieAt string) (implOut, string, []string) {
 	r.n++
 	d := filepath.Join(r.dir, fmt.Sprintf("d%d", r.n))
 	os.MkdirAll(filepath.Join(d, "code"), 0755)
 	defer os.RemoveAll(d)
-	for _, sub := range []string{"lock", "status", "history", "log"} {
+	for _, sub := range []string{"lock", "status", "history", "log", "loads"} {
 		os.MkdirAll(filepath.Join(d, sub), 0755)
 	}
-	os.WriteFile(filepath.Join(d, ".netspoc-approve"), []byte("basedir = "+d+"\ncheckbanner = NetSPoC\nsystemuser = admin\ntimeout = 5\n"), 0644)
-	os.WriteFile(filepath.Join(d, "credentials"), []byte("* admin secret\n"), 0644)
+	os.WriteFile(filepath.Join(d, ".netspoc-approve"), []byte("basedir = "+d+"\ncheckbanner = NetSPoC\nsystemuser = "+simUser+"\ntimeout = 5\n"), 0644)
+	os.WriteFile(filepath.Join(d, "credentials"), []byte("* "+simUser+" secret\n"), 0644)
 	code := filepath.Join(d, "code", "router")
 	os.WriteFile(code, []byte(spoc), 0644)
-	os.WriteFile(code+".info", []byte(`{"generated_by":"verif","model":"Linux","name_list":["router"],"ip_list":["10.1.13.33"]}`), 0644)
+	os.WriteFile(code+".info", []byte(`{"generated_by":"verif","model":"Linux","name_list":["router"],"ip_list":["`+simIP+`"]}`), 0644)
 	logF := filepath.Join(d, "cmds")
 	stF := filepath.Join(d, "state.json")
-	os.WriteFile(stF, []byte(JSONStr(simState{Routes: routesOut, Ipt: iptOut, FailAt: failAt, Log: logF, DieAt: dieAt})), 0644)
-	exe, _ := os.Executable()
-	oldHome := os.Getenv("HOME")
+	fsRoot := r.fs
+	if fsRoot == "" {
+		fsRoot = r.newHostFs()
+		defer os.RemoveAll(fsRoot)
+	}
+	os.WriteFile(stF, []byte(JSONStr(simState{Routes: routesOut, Ipt: iptOut, FailAt: failAt, Log: logF, DieAt: dieAt, Fs: fsRoot, Loads: filepath.Join(d, "loads")})), 0644)
+	if r.binDir == "" {
+		exe, _ := os.Executable()
+		r.binDir = filepath.Join(r.dir, "hostbin")
+		os.MkdirAll(r.binDir, 0755)
+		os.Symlink(exe, filepath.Join(r.binDir, "ssh"))
+		os.Symlink(exe, filepath.Join(r.binDir, "scp"))
+	}
+	oldHome, oldPath := os.Getenv("HOME"), os.Getenv("PATH")
 	os.Setenv("HOME", d)
-	os.Setenv("SIMULATE_ROUTER", exe+" -sim "+stF)
-	defer func() { os.Setenv("HOME", oldHome); os.Unsetenv("SIMULATE_ROUTER") }()
+	os.Setenv("PATH", r.binDir+string(os.PathListSeparator)+oldPath)
+	os.Setenv("VH_C05_SIM", stF)
+	os.Unsetenv("SIMULATE_ROUTER")
+	defer func() { os.Setenv("HOME", oldHome); os.Setenv("PATH", oldPath); os.Unsetenv("VH_C05_SIM") }()
 	old := os.Args
 	os.Args = []string{"drc", "-q", "-L", filepath.Join(d, "log")}
 	if compare {
@@ -206,6 +370,31 @@ func (r *runner) deviceRun2(compare bool, routesOut, iptOut, spoc string, failAt
 			cmds = nil
 		}
 	}
+	h := hostOut{}
+	if b, err := os.ReadFile(filepath.Join(fsRoot, pfFile)); err == nil {
+		h.PF = string(b)
+	}
+	if b, err := os.ReadFile(filepath.Join(fsRoot, rtFile)); err == nil {
+		h.RT = string(b)
+	}
+	if ents, err := os.ReadDir(filepath.Join(fsRoot, "etc/network")); err == nil {
+		for _, e := range ents {
+			switch "/etc/network/" + e.Name() {
+			case pfFile, rtFile:
+			case pfFile + ".new":
+				h.NewLeft = true
+			default:
+				h.Others = append(h.Others, e.Name())
+			}
+		}
+	}
+	if ents, err := os.ReadDir(filepath.Join(d, "loads")); err == nil {
+		for _, e := range ents {
+			b, _ := os.ReadFile(filepath.Join(d, "loads", e.Name()))
+			h.Loaded = append(h.Loaded, string(b))
+		}
+	}
+	r.host = h
 	se = strings.ReplaceAll(se, d+"/", "")
 	return implOut{so, se, st, pm}, string(cmp), cmds
 }
@@ -295,8 +484,11 @@ type implOut struct {
 }
 
 type runner struct {
-	dir string
-	n   int
+	dir    string
+	n      int
+	binDir string  // `ssh` and `scp` of the simulated host
+	fs     string  // file system of the host for the next runs ("" = a fresh one per run)
+	host   hostOut // the host's files after the last device run
 }
 
 func (r *runner) drc(dev, spoc string) implOut {
@@ -927,6 +1119,7 @@ type routeGenOpts struct {
 	nest                bool // destinations from nestPool
 	multiHop, dupTarget bool
 	max                 int
+	many                bool // more than 12 target routes (slices.SortFunc is not stable beyond 12 elements)
 }
 
 func genRoutes(rng *RNG, o routeGenOpts, res *Result) (dev []devRoute, tgt []string, noise []string) {
@@ -987,8 +1180,14 @@ func genRoutes(rng *RNG, o routeGenOpts, res *Result) (dev []devRoute, tgt []str
 	if o.dupTarget && len(tgt) > 0 {
 		tgt = append(tgt, Pick(rng, tgt))
 	}
+	if o.many {
+		n := 13 + rng.Intn(6)
+		for i := 0; len(tgt) < n; i++ {
+			add(fmt.Sprintf("10.77.%d.%d", i/4, (i%4)*64), []int{32, 26, 32, 30}[i%4], Pick(rng, hopPool))
+		}
+	}
 	Shuffle(rng, tgt)
-	if len(tgt) > 12 {
+	if len(tgt) > 12 && !o.many {
 		tgt = tgt[:12]
 	}
 	k := rng.Intn(3)
@@ -1105,40 +1304,60 @@ func runC05(ctx *Ctx) *Result {
 	drv := ctx.StartNadrv("c05")
 	defer drv.Close()
 
+	// lastViol: `table:chain:index:reason` for every target rule outside the class of C05 (from the driver's `mk`)
+	lastViol := ""
 	// judge: the direct oracle on a script printed by the real code (file mode or device mode); `rerun`
-	// runs the real compare again on the device text the specification computes for afterwards
-	judge := func(c *c05Case, why, script string, rerun func(dev2 string) (string, int, string)) {
+	// runs the real compare again on the device text the specification computes for afterwards and says
+	// whether the model agrees with that second run. modelAgrees: the model printed the same script.
+	judge := func(c *c05Case, why, script string, modelAgrees bool, rerun func(dev2 string) (string, int, string, bool)) {
 		o := strings.Split(drv.Ask(strings.Join([]string{"oracle", b2s(c.Names), encRoutes(c.DevRoutes), encRS(c.DevRS),
 			strings.Join(c.TgtRoutes, ls), encRS(c.TgtRS), toLine(strings.TrimSuffix(script, "\n"))}, fs)), fs)
-		if len(o) != 6 {
+		if len(o) != 7 {
 			res.Disagree("c05 oracle (driver cannot read the case)", c, script, strings.Join(o, "|"))
 			return
 		}
 		res.Count("oracle:" + o[0])
-		failed := false
+		hard := false
 		for _, pred := range []string{o[4], o[5]} {
 			if pred != "" {
-				failed = true
-				if pred == "iptables_change_reported_for_equivalent_device" {
-					pred = spellingClass(pred, why, script)
+				// the only first-stage failure the judgement continues behind: the specification knows the device afterwards
+				if pred != "device_table_absent_from_target" {
+					hard = true
 				}
 				sig := map[string]any{"pred": pred}
+				if pred == "device_table_absent_from_target" {
+					sig["model_predicts"], sig["tables"] = modelAgrees, o[2]
+				}
 				if pred == "route_destination_uncovered_during_change" {
 					sig["backend"], sig["level"] = "linux", o[2]
 				}
 				res.Fail(sig, "executing the script printed by the real code on the device semantics: "+pred+" "+o[2], c)
 			}
 		}
-		if failed {
+		if o[6] != "" {
+			// noted, not final: the restore file was executed all the same and the second compare follows
+			res.Fail(spellingSig(o[6], why, lastViol, script, modelAgrees), "executing the script printed by the real code on the device semantics: "+o[6], c)
+		}
+		if hard {
+			res.Count("second-compare:not reached (" + o[4] + o[5] + ")")
 			return
 		}
 		// ---- the device afterwards, as it prints itself: the second compare must be empty
-		out2, st2, err2 := rerun(fromLine(o[3]) + "\n")
+		out2, st2, err2, agree2 := rerun(fromLine(o[3]) + "\n")
 		res.Count("second-compare")
+		if o[5] == "device_table_absent_from_target" {
+			// F-C05t: the device-only tables stay; the second compare must say exactly that again and nothing else
+			want := strings.Split(o[2], ",")
+			sort.Strings(want)
+			first, _, _ := strings.Cut(out2, "\n")
+			if st2 == 0 && agree2 && first == "iptables differs at [tables: "+strings.Join(want, ",")+"<->]" {
+				res.Count("second-compare:device-only tables reported again (F-C05t)")
+				return
+			}
+		}
 		if st2 != 0 || out2 != "" {
-			pred := spellingClass("second_compare_reports_change", why, out2)
 			first, _, _ := strings.Cut(out2+err2, "\n")
-			res.Fail(map[string]any{"pred": pred}, "after a successful approve the device (kernel spelling) still differs from the target: "+first, c)
+			res.Fail(spellingSig("second_compare_reports_change", why, lastViol, out2, agree2), "after a successful approve the device (kernel spelling) still differs from the target: "+first, c)
 		}
 	}
 
@@ -1148,10 +1367,11 @@ func runC05(ctx *Ctx) *Result {
 		why := ""
 		if c.Abstract {
 			ans := strings.Split(drv.Ask(strings.Join([]string{"mk", b2s(c.Names), encRoutes(c.DevRoutes), encRS(c.DevRS), encRS(c.TgtRS)}, fs)), fs)
-			if ans[0] != "OK" || len(ans) != 5 {
+			if ans[0] != "OK" || len(ans) != 6 {
 				res.Disagree("c05 mk (driver cannot read the abstract case)", c, "", strings.Join(ans, "|"))
 				return
 			}
+			lastViol = ans[5]
 			devLines := splitLines(ans[1])
 			// ignored lines of `ip route show` at random but reproducible positions
 			for i, nline := range c.Noise {
@@ -1206,7 +1426,8 @@ func runC05(ctx *Ctx) *Result {
 				}
 			}
 		}
-		if d := agree(impl, ans, len(c.TgtRoutes) > 12); d != "" {
+		d := agree(impl, ans, len(c.TgtRoutes) > 12)
+		if d != "" {
 			res.Disagree("c05 drc vs model: "+d, c, fmt.Sprintf("status=%d stdout=%q stderr=%q panic=%q", impl.Status, impl.Stdout, impl.Stderr, impl.Panic), ans)
 			// no return: the oracle below judges the real output on its own
 		}
@@ -1216,9 +1437,10 @@ func runC05(ctx *Ctx) *Result {
 		if !c.Abstract || impl.Status != 0 {
 			return
 		}
-		judge(c, why, impl.Stdout, func(dev2 string) (string, int, string) {
+		judge(c, why, impl.Stdout, d == "", func(dev2 string) (string, int, string, bool) {
 			impl2 := run.drc(dev2, c.Spoc)
-			return impl2.Stdout, impl2.Status, impl2.Stderr
+			ans2 := drv.Ask("cmp" + fs + toLine(dev2) + fs + toLine(c.Spoc))
+			return impl2.Stdout, impl2.Status, impl2.Stderr, agree(impl2, ans2, len(c.TgtRoutes) > 12) == ""
 		})
 	}
 
@@ -1243,11 +1465,11 @@ func runC05(ctx *Ctx) *Result {
 	}
 	devTexts := func(c *c05Case) (routesOut, iptOut, spoc, why string, ok bool) {
 		ans := strings.Split(drv.Ask(strings.Join([]string{"mk", b2s(c.Names), encRoutes(c.DevRoutes), encRS(c.DevRS), encRS(c.TgtRS)}, fs)), fs)
-		if ans[0] != "OK" || len(ans) != 5 {
+		if ans[0] != "OK" || len(ans) != 6 {
 			res.Disagree("c05 mk (driver cannot read the abstract case)", c, "", strings.Join(ans, "|"))
 			return "", "", "", "", false
 		}
-		why = ans[4]
+		why, lastViol = ans[4], ans[5]
 		var rl, il []string
 		for _, l := range splitLines(ans[1]) {
 			if strings.HasPrefix(l, "ip route add ") {
@@ -1268,6 +1490,97 @@ func runC05(ctx *Ctx) *Result {
 		}
 		spoc = strings.Join(append(append([]string{}, c.TgtRoutes...), splitLines(ans[2])...), "\n") + "\n"
 		return routesOut, iptOut, spoc, why, true
+	}
+	// ---- the host's files, judged by the specification (driver op `boot`): what would the host run after a reboot?
+	// bootReasons: why /etc/network/packet-filter resp. /etc/network/routing do NOT bring up exactly the target ("" = they do)
+	bootReasons := func(c *c05Case, pf, rt string) (string, string) {
+		a := strings.Split(drv.Ask(strings.Join([]string{"boot", strings.Join(c.TgtRoutes, ls), encRS(c.TgtRS), restorer,
+			toLine(strings.TrimSuffix(pf, "\n")), toLine(strings.TrimSuffix(rt, "\n"))}, fs)), fs)
+		if len(a) != 3 || a[0] != "boot" {
+			res.Disagree("c05 boot (driver cannot read the case)", c, pf+rt, strings.Join(a, "|"))
+			return "driver", "driver"
+		}
+		return a[1], a[2]
+	}
+	// judgeHost: after ONE successful approve that started from the files `before`. needIpt / needRt: the change
+	// this approve had to make (rule set differs / at least one route command).  Returns whether all is well.
+	judgeHost := func(c *c05Case, label string, before, h hostOut, needIpt, needRt bool) bool {
+		good := true
+		fail := func(pred, reason, what string) {
+			good = false
+			res.Fail(map[string]any{"pred": "linux_host_" + pred, "reason": reason}, label+": "+what, c)
+		}
+		ri, rr := bootReasons(c, h.PF, h.RT)
+		if needIpt {
+			switch {
+			case ri != "":
+				fail("startup_iptables_file_wrong", ri, "after a successful approve /etc/network/packet-filter does not bring up the target's rule set at boot")
+			case len(h.Loaded) != 1:
+				fail("rule_file_loaded_n_times", strconv.Itoa(len(h.Loaded)), "the approve had to load the new rule set exactly once")
+			case h.Loaded[0] != h.PF:
+				fail("loaded_rules_differ_from_startup_file", "", "the rule file the host executed is not the one installed as start-up file")
+			}
+		} else {
+			if h.PF != before.PF {
+				fail("startup_iptables_file_touched", "", "no rule change was due, yet /etc/network/packet-filter changed")
+			}
+			if len(h.Loaded) != 0 {
+				fail("rule_file_loaded_n_times", strconv.Itoa(len(h.Loaded)), "no rule change was due, yet a rule file was executed")
+			}
+		}
+		if h.NewLeft && !(before.NewLeft && !needIpt) {
+			fail("tmp_rule_file_left", "", "/etc/network/packet-filter.new is still there after a successful approve")
+		}
+		if len(h.Others) > 0 {
+			fail("stray_file", strings.Join(h.Others, ","), "the approve left a file in /etc/network that does not belong there")
+		}
+		if needRt {
+			if rr != "" {
+				fail("startup_routing_file_wrong", rr, "after a successful approve /etc/network/routing does not bring up the target's routes at boot")
+			}
+		} else if h.RT != before.RT {
+			fail("startup_routing_file_touched", "", "no route change was due, yet /etc/network/routing changed")
+		}
+		if good {
+			res.Count("host-files:good after " + label)
+		}
+		return good
+	}
+	// approveOnHost: one complete, undisturbed approve through the device path; the commands the host accepted are
+	// executed on the specification's route table, the files are judged as above.
+	approveOnHost := func(c *c05Case, routesOut, iptOut, spoc, cmpLog string) {
+		run.fs = run.newHostFs()
+		defer func() { os.RemoveAll(run.fs); run.fs = "" }()
+		before := hostOut{PF: oldPF, RT: oldRT}
+		impl, _, cmds := run.deviceRun(false, routesOut, iptOut, spoc, -1)
+		res.TracesVsImpl++
+		res.Count("stream:device-approve")
+		h := run.host
+		if impl.Status != 0 || impl.Panic != "" {
+			first, _, _ := strings.Cut(impl.Stderr+impl.Panic, "\n")
+			res.Fail(map[string]any{"pred": "linux_host_approve_aborts"}, "the compare succeeds but the approve of the same change aborts on the simulated host: "+first, c)
+			return
+		}
+		needIpt := strings.Contains(cmpLog, "iptables differs at")
+		var planned, sent []string
+		for _, l := range strings.Split(cmpLog, "\n") {
+			if strings.HasPrefix(l, "ip route ") {
+				planned = append(planned, strings.Split(l, "\\N ")...)
+			}
+		}
+		for _, l := range cmds {
+			if strings.HasPrefix(l, "ip route ") {
+				sent = append(sent, l)
+			}
+		}
+		if strings.Join(planned, "\n") != strings.Join(sent, "\n") {
+			res.Fail(map[string]any{"pred": "linux_host_route_commands_differ_from_compare"}, "approve sends other route commands than compare announced", c)
+		}
+		o := strings.Split(drv.Ask(strings.Join([]string{"rexec", encRoutes(c.DevRoutes), strings.Join(sent, ls), strings.Join(c.TgtRoutes, ls)}, fs)), fs)
+		if len(o) != 4 || o[0] != "ok" || o[2] != "1" {
+			res.Count("device-approve:routes not converged (judged by the script oracle)")
+		}
+		judgeHost(c, "complete approve", before, h, needIpt, len(planned) > 0)
 	}
 	runDeviceCompare := func(c *c05Case) {
 		routesOut, iptOut, spoc, why, ok := devTexts(c)
@@ -1299,12 +1612,14 @@ func runC05(ctx *Ctx) *Result {
 			res.Fail(map[string]any{"pred": "device_output_rejected"},
 				"LoadDevice aborts on output a Linux host prints (iptables-save / ip route show): "+first, c)
 		}
-		if d := agree(implOut{Stdout: cmpLog, Stderr: impl.Stderr, Status: impl.Status, Panic: impl.Panic}, ans, false); d != "" {
-			res.Disagree("c05 device path (drc -C against the simulated host) vs model: "+d, c,
+		dd := agree(implOut{Stdout: cmpLog, Stderr: impl.Stderr, Status: impl.Status, Panic: impl.Panic}, ans, len(c.TgtRoutes) > 12)
+		if dd != "" {
+			res.Disagree("c05 device path (drc -C against the simulated host) vs model: "+dd, c,
 				fmt.Sprintf("status=%d cmp=%q stderr=%q panic=%q", impl.Status, cmpLog, impl.Stderr, impl.Panic), ans)
 		}
 		if !odd && impl.Status == 0 {
-			judge(c, why, cmpLog, func(dev2 string) (string, int, string) {
+			approveOnHost(c, routesOut, iptOut, spoc, cmpLog)
+			judge(c, why, cmpLog, dd == "", func(dev2 string) (string, int, string, bool) {
 				var rl, il []string
 				for _, l := range strings.Split(strings.TrimSuffix(dev2, "\n"), "\n") {
 					if strings.HasPrefix(l, "ip route add ") {
@@ -1321,7 +1636,8 @@ func runC05(ctx *Ctx) *Result {
 					i2 = strings.Join(il, "\n") + "\n"
 				}
 				impl2, cmp2, _ := run.deviceRun(true, r2, i2, spoc, -1)
-				return cmp2, impl2.Status, impl2.Stderr
+				ans2 := drv.Ask("dev" + fs + toLine(i2) + fs + toLine(r2) + fs + toLine(spoc))
+				return cmp2, impl2.Status, impl2.Stderr, agree(implOut{Stdout: cmp2, Stderr: impl2.Stderr, Status: impl2.Status, Panic: impl2.Panic}, ans2, len(c.TgtRoutes) > 12) == ""
 			})
 		}
 	}
@@ -1339,7 +1655,11 @@ func runC05(ctx *Ctx) *Result {
 		}
 		full := flatten(splitLines(model[1]))
 		k := c.FailAt
+		run.fs = run.newHostFs()
+		defer func() { os.RemoveAll(run.fs); run.fs = "" }()
+		h0 := hostOut{PF: oldPF, RT: oldRT}
 		impl1, _, cmds1 := run.deviceRun(false, routesOut, "", spoc, k)
+		h1 := run.host
 		res.TracesVsImpl++
 		res.Eval(fmt.Sprintf("resume\x00%d\x00%s\x00%s", k, routesOut, spoc), len(full) > 0)
 		want1 := full
@@ -1364,7 +1684,13 @@ func runC05(ctx *Ctx) *Result {
 		if o1[1] != "" {
 			routes2 = fromLine(o1[1]) + "\n"
 		}
+		if k >= len(full) {
+			judgeHost(c, "approve (routes only)", h0, h1, false, len(full) > 0)
+		} else if h1.PF != h0.PF || h1.RT != h0.RT {
+			res.Fail(map[string]any{"pred": "linux_host_startup_file_written_before_routes_done"}, "the session died inside the route commands, yet a start-up file changed", c)
+		}
 		impl2, _, cmds2 := run.deviceRun(false, routes2, "", spoc, -1)
+		h2 := run.host
 		model2 := strings.Split(drv.Ask("dev"+fs+""+fs+toLine(routes2)+fs+toLine(spoc)), fs)
 		res.TracesVsImpl++
 		if model2[0] != "OK" || impl2.Status != 0 || !sameList(cmds2, flatten(splitLines(model2[1]))) {
@@ -1380,6 +1706,12 @@ func runC05(ctx *Ctx) *Result {
 			res.Fail(map[string]any{"pred": predName("resume_not_converged")}, fmt.Sprintf("after an approve interrupted behind %d commands the second approve does not end in the target's routes", k), c)
 		default:
 			res.Count("resume:converged")
+			// the second approve had route commands iff the first was cut: then it must write the routing file
+			judgeHost(c, fmt.Sprintf("second approve after a cut at route command %d", k), h1, h2, false, len(cmds2) > 0)
+			if _, rr := bootReasons(c, h2.PF, h2.RT); len(full) > 0 && rr != "" {
+				res.Fail(map[string]any{"pred": "linux_host_startup_routing_file_wrong_after_resume", "reason": rr, "cut": "route"},
+					"after the resumed approve /etc/network/routing does not bring up the target's routes", c)
+			}
 		}
 	}
 	// splitDev: device text of the specification (prefixed route lines + iptables-save) → the two outputs
@@ -1401,8 +1733,11 @@ func runC05(ctx *Ctx) *Result {
 		}
 		return r2, i2
 	}
-	// C10, whole approve: routes, then the restore file (scp, chmod, load, mv), then the start-up routing file;
-	// the session dies at c.Cut; a second approve must converge and a further compare report nothing
+	// C10, whole approve: routes, then the restore file (which, scp, chmod, load, mv), then the start-up routing file (scp);
+	// the session dies at c.Cut; a second approve must converge, a further compare report nothing, and the
+	// host's start-up files must bring up the target at the next boot
+	iptPhase := map[string]bool{"which": true, "scp-iptables": true, "chmod": true, "echo-after-chmod": true, "exec": true,
+		"echo-after-exec": true, "mv": true, "echo-after-mv": true}
 	runIptResume := func(c *c05Case) {
 		routesOut, iptOut, spoc, why, ok := devTexts(c)
 		if !ok {
@@ -1426,67 +1761,83 @@ func runC05(ctx *Ctx) *Result {
 		impl0, cmp0, _ := run.deviceRun(true, routesOut, iptOut, spoc, -1)
 		o := strings.Split(drv.Ask(strings.Join([]string{"oracle", b2s(c.Names), encRoutes(c.DevRoutes), encRS(c.DevRS),
 			strings.Join(c.TgtRoutes, ls), encRS(c.TgtRS), toLine(strings.TrimSuffix(cmp0, "\n"))}, fs)), fs)
-		if impl0.Status != 0 || len(o) != 6 || o[4] != "" || o[5] != "" {
+		if impl0.Status != 0 || len(o) != 7 || o[4] != "" || o[5] != "" || o[6] != "" {
 			res.Count("ipt-resume:skipped(the complete approve is C05's business)")
 			return
 		}
-		fullRoutes, fullIpt := splitDev(fromLine(o[3]) + "\n")
+		_, fullIpt := splitDev(fromLine(o[3]) + "\n")
 		needIpt := strings.Contains(cmp0, "iptables differs at")
-		needRt := strings.HasPrefix(cmp0, "ip route ")
-		routeCmds := func(cmds []string) (rc []string, loaded, moved bool) {
+		var planned []string
+		for _, l := range strings.Split(cmp0, "\n") {
+			if strings.HasPrefix(l, "ip route ") {
+				planned = append(planned, strings.Split(l, "\\N ")...)
+			}
+		}
+		needRt := len(planned) > 0
+		routeCmds := func(cmds []string) (rc []string) {
 			for _, l := range cmds {
-				switch {
-				case strings.HasPrefix(l, "ip route "):
+				if strings.HasPrefix(l, "ip route ") {
 					rc = append(rc, l)
-				case l == "/etc/network/packet-filter.new":
-					loaded = true
-				case strings.HasPrefix(l, "mv -f "):
-					moved = true
 				}
 			}
 			return
 		}
 		tgt := strings.Join(c.TgtRoutes, ls)
-		// ---- first approve, cut
-		// cut "route": the session dies when route command number FailAt arrives, with the iptables change still ahead
+		run.fs = run.newHostFs()
+		defer func() { os.RemoveAll(run.fs); run.fs = "" }()
+		h0 := hostOut{PF: oldPF, RT: oldRT}
+		// ---- first approve, cut.  cut "route": the session dies when route command number FailAt arrives, with the iptables change still ahead
 		failAt, dieAt := -1, c.Cut
 		if c.Cut == "route" {
 			failAt, dieAt = c.FailAt, ""
 		}
 		impl1, _, cmds1 := run.deviceRun2(false, routesOut, iptOut, spoc, failAt, dieAt)
+		h1 := run.host
 		res.TracesVsImpl++
 		res.Eval(fmt.Sprintf("iptresume\x00%s\x00%d\x00%s\x00%s", c.Cut, failAt, c.Dev, spoc), needIpt || needRt)
-		rc1, loaded1, moved1 := routeCmds(cmds1)
-		if c.Cut != "route" && needIpt && impl1.Status == 0 {
-			// the command the host dies at was never sent: reported, and the oracle below still judges the outcome
-			res.Disagree("c05 ipt-resume: the session died at "+c.Cut+" but approve reports success", c, impl1.Stderr, "abort expected")
+		rc1 := routeCmds(cmds1)
+		cutHit := impl1.Status != 0
+		// by EFFECT, not by the text of a command: a rule file was executed / the start-up files changed
+		loaded1, moved1, rtWritten1 := len(h1.Loaded) > 0, h1.PF != h0.PF, h1.RT != h0.RT
+		expectCut := (iptPhase[c.Cut] && needIpt) || (c.Cut == "scp-routing" && needRt) || (c.Cut == "route" && failAt < len(planned))
+		if expectCut != cutHit {
+			// e.g. the command the host was to die at is never sent: reported; the oracle below still judges the outcome
+			res.Disagree(fmt.Sprintf("c05 ipt-resume: cut at %s, abort expected: %v, approve aborted: %v", c.Cut, expectCut, cutHit), c, impl1.Stderr, "")
 		}
-		if impl1.Status == 0 {
-			res.Count("ipt-resume:first approve not cut")
+		res.Count(fmt.Sprintf("ipt-resume:cut=%s,hit=%v,loaded=%v,moved=%v,routing_written=%v", c.Cut, cutHit, loaded1, moved1, rtWritten1))
+		if !cutHit {
+			judgeHost(c, "first approve (not cut)", h0, h1, needIpt, needRt)
 		}
-		res.Count(fmt.Sprintf("ipt-resume:cut=%s,loaded=%v,moved=%v", c.Cut, loaded1, moved1))
+		ipt2 := iptOut
+		if loaded1 {
+			// the kernel now runs what the executed file says: judged by the specification
+			if ri, _ := bootReasons(c, h1.Loaded[len(h1.Loaded)-1], oldRT); ri != "" {
+				res.Fail(map[string]any{"pred": "linux_host_loaded_rule_file_wrong", "reason": ri, "cut": c.Cut}, "the rule file the host executed does not give the target's rule set", c)
+				return
+			}
+			ipt2 = fullIpt
+		}
 		o1 := strings.Split(drv.Ask(strings.Join([]string{"rexec", encRoutes(c.DevRoutes), strings.Join(rc1, ls), tgt}, fs)), fs)
 		if o1[0] != "ok" || len(o1) != 4 {
 			res.Fail(map[string]any{"pred": "c10_linux_route_command_rejected"}, "first approve: a route command fails on the strict kernel table", c)
 			return
 		}
+		routesDone1 := o1[2] == "1"
 		routes2 := ""
 		if o1[1] != "" {
 			routes2 = fromLine(o1[1]) + "\n"
 		}
-		ipt2 := iptOut
-		if loaded1 {
-			ipt2 = fullIpt
-		}
 		// ---- second approve, undisturbed
 		impl2, _, cmds2 := run.deviceRun2(false, routes2, ipt2, spoc, -1, "")
+		h2 := run.host
 		res.TracesVsImpl++
 		if impl2.Status != 0 || impl2.Panic != "" {
 			first, _, _ := strings.Cut(impl2.Stderr+impl2.Panic, "\n")
 			res.Fail(map[string]any{"pred": "c10_linux_second_approve_aborts"}, "approve after a session cut at "+c.Cut+" aborts: "+first, c)
 			return
 		}
-		rc2, loaded2, moved2 := routeCmds(cmds2)
+		rc2 := routeCmds(cmds2)
+		loaded2, moved2 := len(h2.Loaded) > 0, h2.PF != h1.PF
 		o2 := strings.Split(drv.Ask(strings.Join([]string{"rexec", o1[3], strings.Join(rc2, ls), tgt}, fs)), fs)
 		switch {
 		case o2[0] != "ok" || len(o2) != 4:
@@ -1498,6 +1849,10 @@ func runC05(ctx *Ctx) *Result {
 		}
 		ipt3 := ipt2
 		if loaded2 {
+			if ri, _ := bootReasons(c, h2.Loaded[len(h2.Loaded)-1], oldRT); ri != "" {
+				res.Fail(map[string]any{"pred": "linux_host_loaded_rule_file_wrong", "reason": ri, "cut": c.Cut}, "second approve: the rule file the host executed does not give the target's rule set", c)
+				return
+			}
 			ipt3 = fullIpt
 		}
 		if ipt3 != fullIpt {
@@ -1508,24 +1863,49 @@ func runC05(ctx *Ctx) *Result {
 		if o2[1] != "" {
 			routes3 = fromLine(o2[1]) + "\n"
 		}
-		_ = fullRoutes
-		// ---- a further compare reports no change
+		// ---- a further compare reports no change and leaves the host's files alone
 		impl3, cmp3, _ := run.deviceRun(true, routes3, ipt3, spoc, -1)
+		h3 := run.host
 		res.TracesVsImpl++
 		if impl3.Status != 0 || cmp3 != "" {
 			first, _, _ := strings.Cut(cmp3+impl3.Stderr, "\n")
 			res.Fail(map[string]any{"pred": "c10_linux_compare_after_resume_reports_change"}, "compare after the resumed approve (cut at "+c.Cut+"): "+first, c)
 			return
 		}
-		res.Count("ipt-resume:converged")
-		// ---- the start-up files (what the host loads at boot)
-		if needIpt && !moved1 && !moved2 {
-			res.Fail(map[string]any{"pred": "c10_linux_startup_iptables_file_stale"},
-				"cut at "+c.Cut+": the new rule set is running, the second approve sees no difference and never moves packet-filter.new to /etc/network/packet-filter: a reboot loads the OLD rules", c)
+		if h3.PF != h2.PF || h3.RT != h2.RT || h3.NewLeft != h2.NewLeft || len(h3.Loaded) != 0 {
+			res.Fail(map[string]any{"pred": "linux_host_compare_changes_host"}, "a compare run changed files of the host or loaded rules", c)
 		}
-		if needRt && impl1.Status != 0 && len(rc2) == 0 {
-			res.Fail(map[string]any{"pred": "c10_linux_startup_routing_file_stale"},
-				"cut at "+c.Cut+": all route commands were executed, the second approve sees no route difference and never writes /etc/network/routing: a reboot brings back the OLD routes", c)
+		res.Count("ipt-resume:converged")
+		// ---- the second approve by itself: what it had to change, it must have installed properly
+		needIpt2, needRt2 := needIpt && !loaded1, needRt && !routesDone1
+		if loaded2 && !moved2 {
+			res.Fail(map[string]any{"pred": "c10_linux_second_approve_loads_but_does_not_install", "cut": c.Cut},
+				"the second approve loads the rule set but /etc/network/packet-filter is not replaced", c)
+		}
+		if !judgeHost(c, "second approve after a cut at "+c.Cut, h1, h2, needIpt2, needRt2) {
+			return
+		}
+		// ---- the start-up files after the resumed approve (what the host loads at the next boot)
+		ri, rr := bootReasons(c, h2.PF, h2.RT)
+		if needIpt && ri != "" {
+			if h2.PF == oldPF && cutHit && loaded1 && !moved1 && !needIpt2 && !loaded2 {
+				// F-C10l: pinned to the window "loaded, not yet installed"
+				res.Fail(map[string]any{"pred": "c10_linux_startup_iptables_file_stale", "cut": c.Cut, "loaded_first": loaded1, "moved_first": moved1},
+					"cut at "+c.Cut+": the new rule set is running, the second approve sees no difference and never moves packet-filter.new to /etc/network/packet-filter: a reboot loads the OLD rules", c)
+			} else {
+				res.Fail(map[string]any{"pred": "linux_host_startup_iptables_file_wrong_after_resume", "reason": ri, "cut": c.Cut, "loaded_first": loaded1, "moved_first": moved1},
+					"after the resumed approve /etc/network/packet-filter does not bring up the target's rule set", c)
+			}
+		}
+		if needRt && rr != "" {
+			if h2.RT == oldRT && cutHit && routesDone1 && !rtWritten1 && len(rc2) == 0 {
+				// F-C10l: pinned to the window "all route commands done, routing file not yet copied"
+				res.Fail(map[string]any{"pred": "c10_linux_startup_routing_file_stale", "cut": c.Cut, "routes_done_first": routesDone1, "routing_written_first": rtWritten1},
+					"cut at "+c.Cut+": all route commands were executed, the second approve sees no route difference and never writes /etc/network/routing: a reboot brings back the OLD routes", c)
+			} else {
+				res.Fail(map[string]any{"pred": "linux_host_startup_routing_file_wrong_after_resume", "reason": rr, "cut": c.Cut, "routes_done_first": routesDone1},
+					"after the resumed approve /etc/network/routing does not bring up the target's routes", c)
+			}
 		}
 	}
 	if ctx.Replay != "" {
@@ -1545,27 +1925,52 @@ func runC05(ctx *Ctx) *Result {
 			runCase(&c)
 		}
 		// a replay answers "does THIS input still violate the property beyond the listed classes":
-		// failures of a class listed as known in known/C05.jsonl are noted, not reported
-		known := map[string]bool{}
+		// failures matching a known entry of known/C05.jsonl (EVERY key of its signature, lists = any of) are noted, not reported
+		type knownEntry struct {
+			Status    string         `json:"status"`
+			Property  string         `json:"property"`
+			Signature map[string]any `json:"signature"`
+		}
+		var known []knownEntry
 		if data, err := os.ReadFile(filepath.Join(ctx.Verif, "known", "C05.jsonl")); err == nil {
 			for _, l := range strings.Split(string(data), "\n") {
-				var e struct {
-					Status    string         `json:"status"`
-					Signature map[string]any `json:"signature"`
-				}
-				if json.Unmarshal([]byte(l), &e) == nil && e.Status == "known" {
-					if l, isList := e.Signature["pred"].([]any); isList {
-						for _, x := range l {
-							known[fmt.Sprint(x)] = true
-						}
-					}
-					known[fmt.Sprint(e.Signature["pred"])] = true
+				var e knownEntry
+				if json.Unmarshal([]byte(l), &e) == nil && e.Status == "known" && len(e.Signature) > 0 {
+					known = append(known, e)
 				}
 			}
 		}
+		matches := func(ks, sig map[string]any) bool {
+			for k, v := range ks {
+				sv, has := sig[k]
+				if !has {
+					return false
+				}
+				if l, isList := v.([]any); isList {
+					found := false
+					for _, x := range l {
+						if fmt.Sprint(x) == fmt.Sprint(sv) {
+							found = true
+						}
+					}
+					if !found {
+						return false
+					}
+				} else if fmt.Sprint(v) != fmt.Sprint(sv) {
+					return false
+				}
+			}
+			return true
+		}
 		var keep []Failure
 		for _, f := range res.Failures {
-			if known[fmt.Sprint(f.Sig["pred"])] {
+			isKnown := false
+			for _, e := range known {
+				if matches(e.Signature, f.Sig) {
+					isKnown = true
+				}
+			}
+			if isKnown {
 				res.Notes = append(res.Notes, "known finding on this input: "+fmt.Sprint(f.Sig["pred"]))
 			} else {
 				keep = append(keep, f)
@@ -1575,10 +1980,10 @@ func runC05(ctx *Ctx) *Result {
 		return res
 	}
 
-	cuts := []string{"route", "route", "which", "chmod", "echo-after-chmod", "exec", "echo-after-exec", "mv", "echo-after-mv"}
+	cuts := []string{"route", "route", "which", "scp-iptables", "scp-routing", "chmod", "echo-after-chmod", "exec", "echo-after-exec", "mv", "echo-after-mv"}
 	genIptResume := func(rng *RNG) *c05Case {
 		c := &c05Case{Abstract: true, Names: rng.Bool(), Stream: "ipt-resume", FailAt: -1}
-		c.DevRoutes, c.TgtRoutes, _ = genRoutes(rng, routeGenOpts{multiHop: rng.Chance(25), max: 5}, res)
+		c.DevRoutes, c.TgtRoutes, _ = genRoutes(rng, routeGenOpts{multiHop: rng.Chance(25), max: 5, many: rng.Chance(12)}, res)
 		masked := func(rs []aTable) bool {
 			for _, tb := range rs {
 				for _, ch := range tb.Chains {
@@ -1923,10 +2328,13 @@ func runC05(ctx *Ctx) *Result {
 	for i := 0; i < ctx.N(25, 500); i++ {
 		rng := base.Fork()
 		c := &c05Case{Abstract: true, Names: rng.Bool(), Stream: "device-compare"}
-		c.DevRoutes, c.TgtRoutes, c.Noise = genRoutes(rng, routeGenOpts{multiHop: rng.Chance(25), dupTarget: rng.Chance(8), max: 6}, res)
+		c.DevRoutes, c.TgtRoutes, c.Noise = genRoutes(rng, routeGenOpts{multiHop: rng.Chance(25), dupTarget: rng.Chance(8), max: 6, many: i == 0 || rng.Chance(10)}, res)
+		if len(c.TgtRoutes) > 12 {
+			res.Count("device-compare:more than 12 target routes")
+		}
 		c.TgtRS = genRS(rng, ruleOpts{})
 		c.DevRS = mutateRS(rng, c.TgtRS, res, false)
-		if rng.Chance(8) {
+		if i > 0 && rng.Chance(8) {
 			c.OddLine = Pick(rng, soupIpt) // an odd line in the device's output
 		}
 		runDeviceCompare(c)
@@ -1994,9 +2402,15 @@ func runC05(ctx *Ctx) *Result {
 	return res
 }
 
-// spellingClass names the listed class of a spelling difference: the first line of the script must
-// name the option the class is about (the `iptables differs at` line), and the target must contain a rule of that class.
-func spellingClass(pred, why, script string) string {
+var diffLineRE = regexp.MustCompile(`^iptables differs at ([^:\[]*):([^:\[]*):RULES:(\d+):(.*)$`)
+
+// spellingSig: the signature of a "change reported for an equivalent device" / "second compare reports a change"
+// failure.  The known spelling findings (F-C05m repeated -m, F-C05k mark with a mask) are named ONLY when
+// (1) the model printed the same script as the real code on this input (`model_predicts`),
+// (2) the diff line addresses exactly a target rule that violates RuleOK for that reason (`viol` from the driver:
+//     table:chain:index:reason), and (3) the difference shown is the one that finding is about.
+// Everything else keeps the general predicate and is reported.
+func spellingSig(pred, why, viol, script string, modelAgrees bool) map[string]any {
 	first := ""
 	for _, l := range strings.Split(script, "\n") {
 		if strings.HasPrefix(l, "iptables differs at") {
@@ -2004,18 +2418,31 @@ func spellingClass(pred, why, script string) string {
 			break
 		}
 	}
-	switch {
-	case strings.Contains(why, "repeated_option_key") && (strings.Contains(first, "-m<->") || strings.Contains(first, "<->-m") || strings.Contains(first, ":-m:")):
-		return "repeated_match_option_last_wins"
-	case strings.Contains(why, "unnegated_syn") && strings.Contains(first, "--tcp-flags<->--syn"):
-		return "unnegated_syn_not_normalised"
-	case strings.Contains(why, "mark_with_mask") && (strings.Contains(first, "[options: --set-xmark<->--set-mark]") || strings.Contains(first, ":--set-xmark:[")):
-		// `--set-mark v/m` against the kernel's `--set-xmark v/m`, or `--set-xmark` texts that differ only in spelling
-		return "set_mark_mask_not_normalised"
-	case why != "":
-		return pred + "(outside grammar: " + why + ")"
+	reasonAt := ""
+	rest := ""
+	if m := diffLineRE.FindStringSubmatch(first); m != nil {
+		rest = m[4]
+		for _, v := range strings.Split(viol, ",") {
+			if strings.HasPrefix(v, m[1]+":"+m[2]+":"+m[3]+":") {
+				reasonAt = strings.TrimPrefix(v, m[1]+":"+m[2]+":"+m[3]+":")
+			}
+		}
 	}
-	return pred
+	known := func(name string) map[string]any {
+		return map[string]any{"pred": name, "stage": pred, "model_predicts": true, "rule_violates": reasonAt}
+	}
+	switch {
+	case !modelAgrees || reasonAt == "":
+	case reasonAt == "repeated_option_key" && (strings.HasPrefix(rest, "[options: ") && (strings.Contains(rest, "-m<->") || strings.Contains(rest, "<->-m")) || strings.HasPrefix(rest, "-m:[")):
+		return known("repeated_match_option_last_wins")
+	case reasonAt == "mark_with_mask" && (rest == "[options: --set-xmark<->--set-mark]" || strings.HasPrefix(rest, "--set-xmark:[")):
+		// `--set-mark v/m` against the kernel's `--set-xmark v/m`, or `--set-xmark` texts that differ only in spelling
+		return known("set_mark_mask_not_normalised")
+	}
+	if why != "" {
+		return map[string]any{"pred": pred + "(outside grammar: " + why + ")", "model_predicts": modelAgrees, "diff_rule_violates": reasonAt}
+	}
+	return map[string]any{"pred": pred}
 }
 
 // pairsOfImpl runs the real parseIPTables and renders the option maps like the driver's `pairs`.
